@@ -417,7 +417,7 @@ func (in *Interp) modelValues() ([]interface{}, error) {
 			rank[id] = len(rank)
 		}
 	}
-	var out []interface{}
+	out := []interface{}{}
 	for _, inp := range in.inputs {
 		e := map[string]string{"k": inp.Kind, "n": inp.Name}
 		switch inp.Kind {
